@@ -221,6 +221,9 @@ class Explorer:
         self.stack = []
         self.paths_explored = 0
         self.infeasible_pruned = 0
+        # wall-clock budget for exploring ONE contract (a changed function can make the path tree
+        # explode); exceeding it makes the contract undecided, never a violation
+        self.deadline = time.time() + float(_os.environ.get('PYVC_CONTRACT_BUDGET_S', '600'))
 
     @property
     def ctx(self):
@@ -234,6 +237,8 @@ class Explorer:
             return True
         if z3.is_false(s):
             return False
+        if time.time() > self.deadline:
+            raise RuntimeError('exploration time budget exhausted')
         ctx = self.ctx
         i = len(ctx.decisions)
         if i < len(ctx.prefix):
